@@ -9,6 +9,7 @@ From WG Require Import BV.RefSel.
 From WG Require Import BV.Bits.
 From WG Require Import Par.Splice.
 From WG Require Import Flags.Props.
+From WG Require Import Sort.Pipeline.
 
 Extraction Language OCaml.
 
@@ -56,4 +57,21 @@ Extraction "model.ml"
   representable
   java_from_props
   version
+  sort_pipeline
+  sort_spec
+  boundaries
+  part_id
+  codec_encode
+  codec_decode
+  codec_rt
+  kmerge
+  isort
+  producer
+  flush_batch
+  batch_size_par
+  batch_size_seq
+  ksort
+  kdedup
+  sdedup
+  kleb
 .
